@@ -3,12 +3,14 @@
 \* (TheoremsHold is violated): shows the C06 invariants are not vacuous.
 CONSTANTS
   Atomic = FALSE
+  SingleInPlace = FALSE
   DropDetached = TRUE
   Namespace = {1}
   M = 2
   MaxTs = 1
   Classes = {"ok", "rejectLater"}
   MaxBad = 2
+  FullCauses = 1
   AllowDetached = FALSE
   Emit = FALSE
   EmitMod = 1
